@@ -9,10 +9,11 @@ import DadiVerif.Model.Optim
    c12.flags                                   -> ok <objectFuncShapeOk> <objectFuncLogShapeOk> <projectShapeOk> <perturbNoneIsInf>
                                                      <perturbMutatesBounds> <perturbDrawShapeOk> <optReexported> <outOfBoundsVal> <skipped,…>
    c12.down <optvec> <fixed|N>                 -> ok <optvec>            | err ValueError
-   c12.up <vec> <fixed|N>                      -> ok <vec>               | err IndexError
-   c12.obj <params> <lower|N> <upper|N> <fixed|N> <llscale> <keys> <vals>
+   c12.up <vec> <fixed|N> <int|float>          -> ok <vec>               | err IndexError       (element type of <vec>)
+   c12.obj <params> <lower|N> <upper|N> <fixed|N> <llscale> <keys> <vals> <int|float>           (element type of <params>)
                                                -> ok <value> <point evaluated | ->   | err IndexError | err missing_model_entry
    c12.trace <wrapper> <p0> <lower|N> <upper|N> <fixed|N> <llscale> <queries> <xopt> <fopt> <keys> <vals> <exptab> <logtab> <tol> <vtol>
+             <int|float: p0> <int|float: queries> <int|float: xopt>
                                                -> ok <start|N> <optLower|N> <optUpper|N> <values> <evals> <result|N> <reported|N> <failed clauses | -> <answer is an evaluated pair 0|1>
                                                   | err unknown_wrapper | err ValueError | err IndexError | err missing_table_entry | err missing_model_entry
    c12.points  <same arguments as c12.trace>   -> ok <vectors whose likelihood c12.trace will look up> (the likelihood table given is ignored)
@@ -92,8 +93,11 @@ def freeLenOk (l : List Rat) : Option Fixed → Bool
   | none => true
   | some fx => decide (nFree fx ≤ l.length)
 
+def parseDType (s : String) : Option DType :=
+  if s = "int" then some .int else if s = "float" then some .float else none
+
 def traceOp (pointsOnly : Bool) (w : Wrapper) (pb : Problem) (qs : List (List Rat)) (xopt : List Rat) (fopt : Rat) (mt : MTab)
-    (expT logT : Tab) (tol vtol : Rat) : String :=
+    (expT logT : Tab) (tol vtol : Rat) (dp dq da : DType) : String :=
   -- what the real code refuses
   if !(lenOk pb.p0 pb.fixed) then "err ValueError" else
   if !((match pb.lower with | none => true | some l => lenOk l pb.fixed) && (match pb.upper with | none => true | some l => lenOk l pb.fixed))
@@ -101,7 +105,7 @@ def traceOp (pointsOnly : Bool) (w : Wrapper) (pb : Problem) (qs : List (List Ra
   if !(qs.all (freeLenOk · pb.fixed)) || !(freeLenOk xopt pb.fixed) then "err IndexError" else
   let render (d : Rat) : String × WrapperRun :=
     let expF := expT.fn d; let logF := logT.fn d
-    let r := runWrapper w expF logF pb mt.fn (replay qs (xopt, fopt)) (qs.length + 1)
+    let r := runWrapperT dp dq da w expF logF pb mt.fn (replay qs (xopt, fopt)) (qs.length + 1)
     let failed := checkTrace w expF logF pb mt.fn tol vtol r
     (s!"{showOptList r.start} {showBVs r.optLower} {showBVs r.optUpper} {showList (r.run.history.map (·.2))} " ++
      s!"{showVecs r.run.evals} {showOptList r.result} {match r.reported with | none => "N" | some f => showRat f} " ++
@@ -132,33 +136,35 @@ def handle (toks : List String) : Option String :=
   | ["c12.down", v, fx] => do
       let v ← parseOptVec v; let fx ← parseOptBounds fx
       if !(lenOk v fx) then some "err ValueError" else some ("ok " ++ showOptVec (projectDownO v fx))
-  | ["c12.up", v, fx] => do
-      let v ← parseList v; let fx ← parseOptBounds fx
-      if !(freeLenOk v fx) then some "err IndexError" else some ("ok " ++ showList (projectUpO v fx))
-  | ["c12.obj", params, lo, up, fx, sc, keys, vals] => do
+  | ["c12.up", v, fx, dt] => do
+      let v ← parseList v; let fx ← parseOptBounds fx; let dt ← parseDType dt
+      if !(freeLenOk v fx) then some "err IndexError" else some ("ok " ++ showList (projectUpTO dt v fx))
+  | ["c12.obj", params, lo, up, fx, sc, keys, vals, dt] => do
       let params ← parseList params; let lo ← parseOptBounds lo; let up ← parseOptBounds up; let fx ← parseOptBounds fx
-      let sc ← parseRat sc; let mt ← parseMTab keys vals
+      let sc ← parseRat sc; let mt ← parseMTab keys vals; let dt ← parseDType dt
       if !(freeLenOk params fx) then some "err IndexError" else
-      let r := objectFunc lo up fx sc mt.fn params
+      let r := objectFuncT dt lo up fx sc mt.fn params
       match r.2 with
       | some pu => if mt.has pu then some s!"ok {showRat r.1} {showList pu}" else some "err missing_model_entry"
       | none => some s!"ok {showRat r.1} N"
-  | ["c12.trace", wn, p0, lo, up, fx, sc, qs, xopt, fopt, keys, vals, expT, logT, tol, vtol] => do
+  | ["c12.trace", wn, p0, lo, up, fx, sc, qs, xopt, fopt, keys, vals, expT, logT, tol, vtol, dp, dq, da] => do
+      let dp ← parseDType dp; let dq ← parseDType dq; let da ← parseDType da
       let p0 ← parseList p0; let lo ← parseOptBounds lo; let up ← parseOptBounds up; let fx ← parseOptBounds fx
       let sc ← parseRat sc; let qs ← parseVecs qs; let xopt ← parseList xopt; let fopt ← parseRat fopt
       let mt ← parseMTab keys vals; let expT ← parseTab expT; let logT ← parseTab logT
       let tol ← parseRat tol; let vtol ← parseRat vtol
       match Gen.Optim.wrappers.find? (fun w => w.name == wn) with
       | none => some "err unknown_wrapper"
-      | some w => some (traceOp false w ⟨p0, lo, up, fx, sc⟩ qs xopt fopt mt expT logT tol vtol)
-  | ["c12.points", wn, p0, lo, up, fx, sc, qs, xopt, fopt, keys, vals, expT, logT, tol, vtol] => do
+      | some w => some (traceOp false w ⟨p0, lo, up, fx, sc⟩ qs xopt fopt mt expT logT tol vtol dp dq da)
+  | ["c12.points", wn, p0, lo, up, fx, sc, qs, xopt, fopt, keys, vals, expT, logT, tol, vtol, dp, dq, da] => do
+      let dp ← parseDType dp; let dq ← parseDType dq; let da ← parseDType da
       let p0 ← parseList p0; let lo ← parseOptBounds lo; let up ← parseOptBounds up; let fx ← parseOptBounds fx
       let sc ← parseRat sc; let qs ← parseVecs qs; let xopt ← parseList xopt; let fopt ← parseRat fopt
       let mt ← parseMTab keys vals; let expT ← parseTab expT; let logT ← parseTab logT
       let tol ← parseRat tol; let vtol ← parseRat vtol
       match Gen.Optim.wrappers.find? (fun w => w.name == wn) with
       | none => some "err unknown_wrapper"
-      | some w => some (traceOp true w ⟨p0, lo, up, fx, sc⟩ qs xopt fopt mt expT logT tol vtol)
+      | some w => some (traceOp true w ⟨p0, lo, up, fx, sc⟩ qs xopt fopt mt expT logT tol vtol dp dq da)
   | ["c12.perturb", params, factors, lo, up] => do
       let params ← parseList params; let factors ← parseList factors
       let lo ← parseOptBounds lo; let up ← parseOptBounds up
